@@ -98,7 +98,7 @@ def r2_success_is_reread(ctx):
     miss = multi.methods["__missing__"]
     ctx.touch(miss)
     rv = recv_name(miss)
-    params = [p for p in miss.params if p != rv]
+    params = [p for p in miss.params if p != rv][:1]
     cg = get_callgraph(ctx)
     res_names = {m.name for m in lookup_path(ctx, multi) if m is not miss}
     rets = [n for n in ast.walk(miss.node) if isinstance(n, ast.Return)]
@@ -137,7 +137,7 @@ def r2_success_is_reread(ctx):
     for m in res:
         ctx.touch(m)
         mrv = recv_name(m)
-        mparams = [p for p in m.params if p != mrv]
+        mparams = [p for p in m.params if p != mrv][:1]
         mcfg = cfg_of(ctx, m)
         store_nodes = []
         outer = None
